@@ -29,7 +29,11 @@ IndexArgs(q) == {Undef, Null, VBool(TRUE), VStr(U("1")), VStr(U("x")), VStr(<<>>
 TextArgs(q) == {Undef, Null, VBool(FALSE), VStr(<<>>), VStr(U("a")), VStr(U("b")), VStr(U("bc")), VStr(U("abc")),
                 VStr(U(" ")), VStr(U("X")), VNumW(WOfInt(1)), VNumW(WOfInt(12))}
                  \cup (IF q THEN {} ELSE {VStr(U("aa")), VStr(U("abcd")), VStr(<<56832>>), VNumW(WNaN), VObj(<<>>), VArr(<<>>)})
+TemplArgs(q) == {Undef, Null, VStr(<<>>), VStr(U("x")), VStr(U("$&")), VStr(U("$$")), VStr(<<36, 96>>), VStr(U("$'")), VStr(U("$1")),
+                 VStr(U("[$&$&]")), VStr(U("$")), VStr(U("a$")), VStr(U("$0$<n>")), VStr(<<36, 39, 36, 96>>), VNumW(WOfInt(1))}
+                 \cup (IF q THEN {} ELSE {VStr(U("$$$$")), VStr(U("$$&")), VStr(U("$&$")), VStr(U("$01")), VBool(TRUE), VStr(U("-$'-$&-"))})
 ArgsAt(m, i, q) == IF i \in IndexPos(m) THEN IndexArgs(q) ELSE IF i \in TextPos(m) THEN TextArgs(q)
+                   ELSE IF i \in TemplPos(m) THEN TemplArgs(q)
                    ELSE IF m = "[]" THEN {VNumW(w) : w \in NumGrid \ {WNegZero}} ELSE {}
 ArgVectors(m, q) ==
   {<<>>} \cup (IF Arity(m) >= 1 THEN {<<x>> : x \in ArgsAt(m, 1, q)} ELSE {})
